@@ -5,6 +5,7 @@ import (
 	"encoding/hex"
 	"encoding/json"
 	"fmt"
+	"strings"
 
 	"github.com/ulikunitz/lz"
 	"verif/mc/engine"
@@ -55,6 +56,9 @@ type acceptRun struct {
 }
 
 func (r *acceptRun) report(sig, format string, a ...any) {
+	if r.prop != "C07" && (strings.Contains(sig, "|refused|") || strings.HasSuffix(sig, "|spin")) {
+		return // refusals for size belong to C07, retry loops to C06
+	}
 	full := r.prop + "|" + sig
 	if r.col.Seen(full) {
 		r.col.Report(engine.Violation{Property: r.prop, Sig: full, Rank: 1 << 62}) // counted only
@@ -186,9 +190,21 @@ func acceptLayers(tier string) []Layer {
 	}
 }
 
+// acceptLayersFor returns the product layers of a check: C07 owns the full
+// set, C04 (exact expansion of real parser output) a lighter one in the quick tier.
+func acceptLayersFor(prop, tier string) []Layer {
+	if prop != "C07" && tier != "thorough" {
+		return []Layer{
+			{Name: "hash", Kinds: HashKinds, BufSizes: []int{2, 3, 5}, Level: 2, Inputs: Binary(6), Bound: 1},
+			{Name: "sa", Kinds: []string{"GSAP", "OSAP"}, BufSizes: []int{3, 5}, Level: 0, Inputs: Binary(4), Bound: 1},
+		}
+	}
+	return acceptLayers(tier)
+}
+
 func acceptShards(prop, tier string) []engine.Shard {
 	var shards []engine.Shard
-	for _, l := range acceptLayers(tier) {
+	for _, l := range acceptLayersFor(prop, tier) {
 		l := l
 		geo := Geometry(l.BufSizes)
 		for _, kind := range l.Kinds {
